@@ -134,7 +134,7 @@ def pop_cases():
             for ns in (1, 3):
                 out.append(dict(kind=kind, nd=nd, ns=ns))
     out += [dict(kind='composed', nd=3, ns=2), dict(kind='covariate', nd=1, ns=2), dict(kind='reduced', nd=2, ns=2),
-            dict(kind='covariate-nc', nd=1, ns=3)]
+            dict(kind='covariate-nc', nd=1, ns=3), dict(kind='composed-2cov', nd=3, ns=2), dict(kind='composed-2cov', nd=3, ns=3)]
     return out
 
 
@@ -166,6 +166,15 @@ def run_pop_case(case, rng):
         m.fix_parameters({'Std. Dim. 1': 2})
         par = [3, 1, 2]
         claims1 = [('normal', 3, 2, 0), ('lognormal', 1, 2, 0)]
+    elif k == 'composed-2cov':
+        # two covariate sub-models reading DIFFERENT covariate columns, a plain model in between
+        m = chi.ComposedPopulationModel([
+            chi.CovariatePopulationModel(chi.GaussianModel(), chi.LinearCovariateModel(n_cov=1)),
+            chi.PooledModel(),
+            chi.CovariatePopulationModel(chi.LogNormalModel(centered=False), chi.LinearCovariateModel(n_cov=2))])
+        par = [3, 2, 1, 1, 7, 1, 2, 1, 0, 0, 1]   # G: mean, std, b_mean, b_std | pooled | LN: mu, sd, b_mu(c1,c2), b_sd(c1,c2)
+        covs = np.array([[1.0, 2.0, 4.0], [2.0, 5.0, 1.0], [3.0, 1.0, 2.0]][:ns])
+        claims1 = None
     else:
         m = chi.CovariatePopulationModel(chi.GaussianModel(centered=(k == 'covariate')), chi.LinearCovariateModel(n_cov=1))
         par = [3, 2, 1, 1]          # mean, std, beta_mean, beta_std
@@ -183,6 +192,10 @@ def run_pop_case(case, rng):
         for d in range(nd):
             if claims1 is not None:
                 claims.append(claims1[d])
+            elif k == 'composed-2cov':
+                c = covs[i]
+                claims.append([('normal', 3 + 1 * c[0], 2 + 1 * c[0], 0), ('point', 7, 0, 0),
+                               ('lognormal', 1 + 1 * c[1] + 0 * c[2], 2 + 0 * c[1] + 1 * c[2], 0)][d])
             else:
                 x = covs[i, 0]
                 claims.append(('normal', par[0] + par[2] * x, par[1] + par[3] * x, 0))
